@@ -147,6 +147,10 @@ def program_plugins(prog, log):
                     raise HttpRequestRejected(status_code=418, reason=b'R-%d-hcr' % p, body=b'rejected by %d' % p)
                 return request
 
+            def handle_client_data(self, raw):
+                log.append({'p': p, 'h': 'hcd', 'seen': []})
+                return None if beh.get('hcd') == 'drop' else raw
+
             def handle_upstream_chunk(self, chunk):
                 raw = bytes(chunk)
                 body = raw.rsplit(b'\r\n\r\n', 1)[-1]
